@@ -16,8 +16,9 @@ RULE = ("histories drawn from one PRNG (VERIF_SEED): GRcreate (dims 1..9 x 1..9,
         "arguments (stride or count < 1); palettes attached or replaced in a LATER session for every image kind; "
         "old-style rasters (DFR8addimage with and without RLE, widths 1..9, 60, 119..131, 255..260 with runs of "
         "119..300 equal pixels; DF24addimage) read, dumped, rewritten through GR and reopened; direct DFCIrle + "
-        "DFCIunrle on rows of up to 400 bytes; GRwritechunk / GRreadchunk on chunk lengths dividing the dimensions.  Compressed (non-chunked) images are written once (the format does not "
-        "allow partial rewrites) and then only read.  A case is one compared operation result; it is non-trivial when "
+        "DFCIunrle on rows of up to 400 bytes; GRwritechunk / GRreadchunk on chunk lengths dividing the dimensions.  Every storage kind is rewritten (whole / region / strided) in the creating session and "
+        "after reopen; the fill value is set and changed while an image is still empty, between reads of the empty image "
+        "and before the first partial write; the FillValue attribute is read back.  A case is one compared operation result; it is non-trivial when "
         "it lies in the property's domain and transfers at least one pixel; distinct by (geometry, interlaces, "
         "storage, region, data)")
 TRUSTED = ["Coq 8.16.1 kernel",
@@ -41,7 +42,7 @@ ASSUMPTIONS = ["host is little-endian", "every generated history except the reje
                "DFNT_NATIVE number types are outside the domain (their file representation is machine-dependent)",
                "an image receives its first write in the session that created it (a partial first write in a later "
                "session is rejected by the library: fill_img is a per-session flag of GRcreate)",
-               "compressed, non-chunked images are written by one GRwriteimage call and then only read",
+               "the fill value is set / changed only while the image has no data (afterwards it no longer influences pixels)",
                "GRwritechunk / GRreadchunk are driven for chunk lengths that divide the image dimensions",
                "an old-style compressed raster (DFTAG_RLE) is rewritten through GR only with data of the same "
                "compressed size (it is recompressed in place and cannot grow; a larger image makes GRend FAIL)"]
@@ -188,6 +189,7 @@ def gen_image_history(r, hid, stats):
                     stats["first_write_trailing_rows"] += 1
             stats["wil_%d" % im.il] += 1
             im.written = True
+            im.dirty = True
         elif c < 0.42:
             il = r.randrange(3)
             ops.append("I %d %d" % (im.k, il))
@@ -205,7 +207,9 @@ def gen_image_history(r, hid, stats):
         elif c < 0.87:
             ops.append("A %d" % im.k)
         elif c < 0.9:
-            ops.append("D %d" % im.k)
+            # the raw element of a compressed image is only current once the buffered access has been ended
+            if not (im.store.startswith("comp") and getattr(im, "dirty", False)):
+                ops.append("D %d" % im.k)
         else:
             if not all(j.written or j.store.startswith("chunk") for j in ims):
                 continue            # an image gets its first write in the session that created it
@@ -215,6 +219,7 @@ def gen_image_history(r, hid, stats):
                 j.il = 0
                 j.ril = 0
                 j.reopened = True
+                j.dirty = False
     # always finish with reopen + full reads in a random interlace
     ops.append("E")
     for im in ims:
